@@ -158,6 +158,34 @@ func checkC03(c *run.Ctx) {
 			c.Sample(map[string]any{"document": clip(rs[len(rs)-1].Text, 1500), "normal_form": clip(want.String(), 1500)})
 		}
 	})
+	// Scale: documents of hundreds to 150000 steps (beyond 1 MiB of text from 20000 steps on, about 10 MiB at the top
+	// of the thorough tier): nothing is dropped, duplicated or moved however long the document is.
+	c.Phase("scale", func() {
+		sizes := []int{300, 3000, 20000, 60000, 150000}[:c.N(3, 5)]
+		c.Parallel("scale", len(sizes)*2, func(i int, r *rand.Rand) {
+			n := sizes[i/2]
+			unknownEvery := 0
+			if i%2 == 1 {
+				unknownEvery = 211
+			}
+			d := bigStepsDoc(r, n, 24, unknownEvery)
+			text := string(doc.ToJSON(d))
+			style := "json"
+			if (i/2)%2 == 0 {
+				if t, err := doc.ToYAML(d, doc.YAMLOpts{}); err == nil {
+					text, style = t, "yaml-block"
+				}
+			}
+			what, _, _, _ := c03CheckText(text, d, "")
+			c.Eval(1)
+			c.Feature("scale", n, style, unknownEvery > 0)
+			c.Count("scale_documents", 1)
+			c.Max("largest_document_bytes", int64(len(text)))
+			if what != "" {
+				c.Violation(run.CaseID("scale", i), map[string]any{"what": fmt.Sprintf("document of %d steps (%d bytes, %s): %s", n, len(text), style, what), "document_head": clip(text, 600)})
+			}
+		})
+	})
 	c.Finish("exploration",
 		"grammar-generated pipeline documents (every step kind and shorthand; feature sweeps enumerating all 32 key/id/identifier/label/name subsets, all command/commands form pairs, all plugin, matrix and cache forms; arbitrary extras with every YAML scalar kind; tricky strings; aliases and `<<` merges from templates), each rendered as JSON and in two random YAML styles (self-checked), parsed, marshalled to JSON and YAML, read back with independent readers and compared with an independently implemented normaliser. distinct_nontrivial counts distinct feature vectors (set of grammar features a document used)",
 		nil,
